@@ -42,6 +42,10 @@ def run(P, rep, tier):
     rep.attempt(r2_frame, P, rep, ctx)
     rep.attempt(r3_identity, P, rep, ctx)
     rep.attempt(r4_copy_coverage, P, rep, ctx)
+    from .c03 import r5_codec
+
+    # merge re-labels an already committed target with a (possibly shorter) user block: the codec must terminate / cut at NUL
+    rep.attempt(r5_codec, P, rep, ctx, "C05.R5")
     rep.floor("C05.R1", 3)
     rep.floor("C05.R2", 3)
     rep.floor("C05.R3", 6)
